@@ -78,6 +78,16 @@ def cases(shard, rnd):
         for n in (131065, 131072, 131073, 200000, 1 << 20):
             yield {'t': 'body', 'body': bytes([n % 251]) * n,
                    'ch': gf.rchannel(rnd)}
+        # buffers other than bytes: the size field counts BYTES whatever
+        # len() of the object says
+        import array
+        for buf in (bytearray(b'ab\xcecd'), memoryview(b'abcdef'),
+                    memoryview(b'abcdefgh').cast('H'),
+                    memoryview(b'abcdefgh').cast('B', (2, 4)),
+                    array.array('B', b'abc'), array.array('H', [1, 2, 0xCE]),
+                    array.array('I', [1, 2, 3]), array.array('d', [1.5]),
+                    array.array('q', [-1, 5])):
+            yield {'t': 'body', 'body': buf, 'ch': gf.rchannel(rnd)}
         # the encoder also emits a frame for an EMPTY body
         for ch in (0, 1, 65535):
             yield {'t': 'body', 'body': b'', 'ch': ch}
